@@ -32,7 +32,8 @@ def run(ctx):
     # the universe of Trace_C06 fixes the first operation up to conjugacy; the lemma that this loses no class
     ctx.mc("MC_SetClasses", cfg="MC_SetClasses" if ctx.quick else "MC_SetClasses_t", workers=12,
            universe="classes of all tuples of involutions = classes of tuples with normal-form first operation, n <= %s (dim 1,2,3)" % ("6,5,4" if ctx.quick else "7,6,5"))
-    runs = "1:8,2:6,3:5" if ctx.quick else "1:10,2:7,3:6"
+    # "u" runs lie beyond the universe: validity, numbering and pairwise non-isomorphism only (no completeness half)
+    runs = "1:8,2:6,3:5,2:10u,3:8u" if ctx.quick else "1:10,2:7,3:6,1:14u,2:11u,3:9u"
     ev = ctx.work / "events.ndjson"
     ctx.dsv("C06", "drive", "--out", ev, "--runs", runs, timeout=3600)
     for ln in open(ev):
